@@ -30,7 +30,7 @@ CANON = [(0, 0, 0), (1, 0, 0), (1, 1, 0), (0, 1, 0), (0, 0, 1), (1, 0, 1), (1, 1
 ROT = hex_rotations()
 LOCAL_AXIS_END = {0: 1, 1: 3, 2: 4}  # local axis a runs from corner 0 to this corner
 
-DIMS = [(a, b, c) for a in (1, 2, 3) for b in (1, 2, 3) for c in (1, 2, 3) if a * b * c <= 8]
+DIMS = [(a, b, c) for a in range(1, 7) for b in range(1, 7) for c in range(1, 7) if a * b * c <= 8]
 
 
 def cell_index(dims, i, j, k) -> int:
@@ -45,12 +45,12 @@ def node_index(dims, i, j, k) -> int:
     return i + (dims[0] + 1) * (j + (dims[1] + 1) * k)
 
 
-def node_positions(case) -> np.ndarray:
+def node_positions(case, with_jitter: bool = True) -> np.ndarray:
     dims = case["dims"]
     axes = [np.concatenate([[0.0], np.cumsum(case["widths"][a])]) for a in range(3)]
     n = (dims[0] + 1) * (dims[1] + 1) * (dims[2] + 1)
     pos = np.zeros((n, 3))
-    jit = case.get("jitter") or []
+    jit = (case.get("jitter") or []) if with_jitter else []
     amp = [0.2 * min(case["widths"][a]) for a in range(3)]
     for k in range(dims[2] + 1):
         for j in range(dims[1] + 1):
@@ -121,10 +121,20 @@ def lattice(draw, min_cells: int = 2, max_cells: int = 8, jitter: str = "maybe",
         [10.0 ** draw(st.floats(-widths_decades, widths_decades)) for _ in range(dims[a])] for a in range(3)
     ]
     nn = (dims[0] + 1) * (dims[1] + 1) * (dims[2] + 1)
-    use_j = {"no": False, "yes": True}.get(jitter)
-    if use_j is None:
-        use_j = draw(st.booleans())
-    jit = [draw(st.floats(-1.0, 1.0)) for _ in range(3 * nn)] if use_j else []
+    mode = jitter if jitter in ("no", "yes", "sparse") else draw(st.sampled_from(["no", "yes", "sparse"]))
+    if jitter == "yes" and draw(st.integers(0, 2)) == 0:
+        mode = "sparse"
+    if mode == "no":
+        jit = []
+    elif mode == "yes":
+        jit = [draw(st.floats(-1.0, 1.0)) for _ in range(3 * nn)]
+    else:
+        # only a few nodes are displaced: parallel edges of one block differ in just one or two places
+        moved = draw(st.lists(st.integers(0, nn - 1), min_size=1, max_size=3, unique=True))
+        jit = [0.0] * (3 * nn)
+        for node in moved:
+            for a in range(3):
+                jit[3 * node + a] = draw(st.floats(-1.0, 1.0))
     k = draw(st.integers(min_cells, min(max_cells, ncell)))
     cells = draw(st.permutations(list(range(ncell))))[:k]
     orient = [draw(st.integers(0, 23)) for _ in cells]
@@ -210,6 +220,10 @@ def chopped_lattice(draw, mode: str, graded: bool = False, **kw):
         base = fam_count[fi]
         if base is None:
             return None
+        if not isinstance(chops[fi]["args"], list) and draw(st.integers(0, 2)) == 0:
+            # large counts that differ by one cell only
+            base = draw(st.integers(60, 1200))
+            chops[fi]["args"] = {"count": base}
         other = base + draw(st.sampled_from([-3, -2, -1, 1, 2, 3, 7]))
         if other < 1:
             other = base + 1
@@ -261,11 +275,30 @@ def localize_args(args: Dict[str, Any], sign: int, length: float) -> Dict[str, A
     return out
 
 
+def move_after_assembly(case, built: "Built") -> int:
+    """case["jitter_after_assembly"]: the operations were built on the regular lattice; now the mesh is assembled and
+    its vertices are moved to the jittered node positions (as an optimiser / smoother would).  Returns # moved."""
+    mesh = built.mesh
+    if not mesh.is_assembled:
+        mesh.assemble()
+    regular = node_positions(case, with_jitter=False)
+    target = node_positions(case, with_jitter=True)
+    moved = 0
+    for vertex in mesh.vertices:
+        d = np.linalg.norm(regular - vertex.position, axis=1)
+        k = int(np.argmin(d))
+        assert d[k] < 1e-9
+        if np.linalg.norm(target[k] - regular[k]) > 0:
+            vertex.move_to(target[k])
+            moved += 1
+    return moved
+
+
 def build(case, with_chops: bool = True) -> Built:
     import classy_blocks as cb
 
     dims = case["dims"]
-    pos = node_positions(case)
+    pos = node_positions(case, with_jitter=not case.get("jitter_after_assembly"))
     b = Built()
     b.mesh = cb.Mesh()
     for c, rot in zip(case["cells"], case["orient"]):
